@@ -41,6 +41,7 @@ type SealRule struct {
 
 // BlockObs is what the application saw for one block.
 type BlockObs struct {
+	Listened  bool // the application installed an ApplyEvent listener for this block
 	Atropos   hash.Event
 	Cheaters  []idx.ValidatorID
 	Delivered []hash.Event
@@ -77,7 +78,13 @@ type Inst struct {
 	blocks   []BlockObs          // collected during the current call
 	Dead     bool
 	NBuilds  int
+	// listener policy of the application: mode 0 = ApplyEvent for every block, 1 = from the ListenN-th block of
+	// the instance's life on, 2 = for every other block (odd ones)
+	ListenMode, ListenN int
+	Flags               int // 1: nil EndBlock on non-sealing blocks; 2: one-byte HighestBefore/LowestAfter caches
+	totalBlocks         int
 	lastCrit string
+	keepIndex bool // the next mkLachesis reuses the application's DagIndexer object
 }
 
 func BuildVals(vw []VW) *pos.Validators {
@@ -109,19 +116,46 @@ func (in *Inst) storeCfg() abft.StoreConfig {
 func (in *Inst) idxCfg() vecfc.IndexConfig {
 	c := vecfc.LiteConfig()
 	c.Caches.ForklessCausePairs = in.cfg.FcCap
+	if in.Flags&2 != 0 { // every vector is evicted at once: all reads go to the epoch DB
+		c.Caches.HighestBeforeSeqSize = 1
+		c.Caches.LowestAfterSeqSize = 1
+	}
 	return c
 }
 
 func (in *Inst) callbacks() lachesis.ConsensusCallbacks {
+	if in.ListenMode == 3 { // an application that installs no BeginBlock: frames are decided, nothing is reported
+		return lachesis.ConsensusCallbacks{}
+	}
 	return lachesis.ConsensusCallbacks{
 		BeginBlock: func(b *lachesis.Block) lachesis.BlockCallbacks {
-			bo := BlockObs{Atropos: b.Atropos, Cheaters: append([]idx.ValidatorID{}, b.Cheaters...)}
+			in.totalBlocks++
+			listen := Listens(in.ListenMode, in.ListenN, in.totalBlocks)
+			bo := BlockObs{Listened: listen, Atropos: b.Atropos, Cheaters: append([]idx.ValidatorID{}, b.Cheaters...)}
 			in.blocks = append(in.blocks, bo)
 			cur := len(in.blocks) - 1
-			return lachesis.BlockCallbacks{
-				ApplyEvent: func(e dag.Event) {
+			var apply lachesis.ApplyEventFn
+			if listen {
+				apply = func(e dag.Event) {
 					in.blocks[cur].Delivered = append(in.blocks[cur].Delivered, e.ID())
-				},
+				}
+			}
+			if in.Flags&1 != 0 {
+				// EndBlock is optional: leave it out on the blocks the sealing policy does not seal
+				seals := false
+				ep := uint32(in.store.GetEpoch())
+				for _, r := range in.policy {
+					if r.Epoch == ep && r.Block == in.nblocks+1 {
+						seals = true
+					}
+				}
+				if !seals {
+					in.nblocks++
+					return lachesis.BlockCallbacks{ApplyEvent: apply}
+				}
+			}
+			return lachesis.BlockCallbacks{
+				ApplyEvent: apply,
 				EndBlock: func() *pos.Validators {
 					in.nblocks++
 					ep := uint32(in.store.GetEpoch())
@@ -141,19 +175,37 @@ func (in *Inst) callbacks() lachesis.ConsensusCallbacks {
 	}
 }
 
+// Listens tells whether the application installs ApplyEvent for its k-th block (k from 1).
+func Listens(mode, n, k int) bool {
+	switch mode {
+	case 1:
+		return k >= n
+	case 2:
+		return k%2 == 1
+	}
+	return true
+}
+
 func (in *Inst) open() error {
 	in.store = abft.NewStore(in.mainDB, in.getEpochDB, in.crit, in.storeCfg())
 	return nil
 }
 
 func (in *Inst) mkLachesis() {
-	in.dagIdx = &adapters.VectorToDagIndexer{Index: vecfc.NewIndex(in.crit, in.idxCfg())}
+	if !in.keepIndex || in.dagIdx == nil {
+		in.dagIdx = &adapters.VectorToDagIndexer{Index: vecfc.NewIndex(in.crit, in.idxCfg())}
+	}
 	in.Lch = abft.NewIndexedLachesis(in.store, in.events, in.dagIdx, in.crit, abft.LiteConfig())
 }
 
 // NewInst applies the genesis and bootstraps.
 func NewInst(cfg Cfg, epoch uint32, vals []VW, policy []SealRule) *Inst {
-	in := &Inst{cfg: cfg, policy: policy, mainDB: memorydb.New(), epochDB: map[idx.Epoch]kvdb.Store{},
+	return NewInstOpts(cfg, epoch, vals, policy, 0, 0, 0)
+}
+
+// NewInstOpts is NewInst with the application-side options of the "L" header group.
+func NewInstOpts(cfg Cfg, epoch uint32, vals []VW, policy []SealRule, listenMode, listenN, flags int) *Inst {
+	in := &Inst{ListenMode: listenMode, ListenN: listenN, Flags: flags, cfg: cfg, policy: policy, mainDB: memorydb.New(), epochDB: map[idx.Epoch]kvdb.Store{},
 		events: &evStore{m: map[hash.Event]dag.Event{}}, proc: map[hash.Event]bool{}}
 	in.open()
 	if err := in.store.ApplyGenesis(&abft.Genesis{Epoch: idx.Epoch(epoch), Validators: BuildVals(vals)}); err != nil {
@@ -272,6 +324,13 @@ func (in *Inst) Build(e *tdag.TestEvent) string {
 		}
 		return fmt.Sprintf("f%d", e.Frame())
 	})
+}
+
+// RestartKeepIndex is Restart with the application keeping its DagIndexer object (in-process restart).
+func (in *Inst) RestartKeepIndex() (res string, blocks []BlockObs) {
+	in.keepIndex = true
+	defer func() { in.keepIndex = false }()
+	return in.Restart()
 }
 
 // Restart: a new Store over the same databases, a fresh index, Bootstrap.
